@@ -144,7 +144,7 @@ def _get(arr, idx):
         return None
 
 
-def yaml_events(col, text, ph, ph2, obs, origin="", cap=None, rng=None, cells_from_file=True):
+def yaml_events(col, text, ph, ph2, obs, origin="", cap=None, rng=None, cells_from_file=True, same_order=True):
     """one event per numeric line of the saved file; values from the saved object by YAML path,
     `back` from the reloaded object where that field was loaded from the file."""
     root = pyyaml.compose(text, Loader=getattr(pyyaml, "CSafeLoader", pyyaml.SafeLoader))
@@ -152,6 +152,8 @@ def yaml_events(col, text, ph, ph2, obs, origin="", cap=None, rng=None, cells_fr
     ok2 = ph2 is not None and cells_from_file  # (cells given by argument are not read from the file)
 
     def cellof(p, key):
+        if p is ph2 and key == "supercell" and not same_order:
+            return None  # reloaded supercell in another atom order: ReqAtomOrder of SaveLoad.tla, not a text matter
         return getattr(p, CELLKEYS[key]) if p is not None else None
 
     from harness.c16_world import disp_forces
